@@ -202,6 +202,13 @@ def gen_mid(ck: Check):
                 a = max(1, a)
                 items.append([a, b, rng.randint(1, 2)] if rng.random() < 0.5 else [b, a, rng.randint(1, 2)])
             yield "longbin", W, H, items
+    # exactly k bins filled by full-length strips plus a tiny excess, with a bin area beyond 2^53 / k: the area bound is
+    # k + 1 and only exact integer arithmetic sees it (found missing by seeded change C03-area-bound-float-ceil)
+    for (L, S, k) in ((10**12, 10**4, 1), (10**12, 10**4, 3), (10**12, 100, 1000), (10**12, 9007, 1), (10**11, 10**5, 2)):
+        for (W, H) in ((L, S), (S, L)):
+            strip = [L, 1, S * k] if W == L else [1, L, S * k]
+            for extra in ([[1, 1, 1]], [[1, 1, 2], [2, 1, 1]]):
+                yield "area-excess", W, H, [strip, *extra]
     for _ in range(6 if ck.quick else 40):
         W = rng.randint(5000, 30000)
         H = rng.choice([W, W - 1, W // 2 + 1, rng.randint(W // 2, W)])
